@@ -22,7 +22,8 @@ EXPLANATION = (
     "Children are assumed to satisfy the same contract (induction over parser construction); the "
     "error type's own laws (default is soft, to_fatal is fatal, is_soft = !is_fatal) are checked on "
     "every variant of the workspace's ParserErrorTrait implementor.  (L) the combinators documented to undo by themselves (sequence-with-undo, optional surround) return the possibly soft error of a child that was not the first one parsed only after set_position(entry): children such as and_then / flatten are documented not to rewind, so the induction hypothesis does not cover them."
-    " (T) in a delimited list a delimiter that follows no element is accepted only when the list's collector supplies a value for the missing element; otherwise the parser returns the error it was given for that case, without going round the loop again.")
+    " (T) in a delimited list a delimiter that follows no element is accepted only when the list's collector supplies a value for the missing element; otherwise the parser returns the error it was given for that case, without going round the loop again."
+    " (P) no combinator puts the input position back and then returns a child's error that is not known to be soft.")
 NOT_DECIDED = [
     "choice returns the *first* successful alternative; repetition returns the *maximal* run; "
     "delimited lists reject exactly a trailing delimiter (functional behaviour of each combinator)",
